@@ -366,6 +366,14 @@ fn main() {
         sweep(&run, lens.into_par_iter().map(|(l, c)| content(c, l)), |x, lc| check_compress(&run, t, x, lc));
         let reps: Vec<(u8, usize)> = (0..=255u8).flat_map(|b| (1..=64).map(move |n| (b, n))).collect();
         sweep(&run, reps.into_par_iter().map(|(b, n)| vec![b; n]), |x, lc| check_compress(&run, t, x, lc));
+        // every ordered pair of symbols followed by one of 8 third symbols: every symbol's code
+        // is written at every bit offset the table's code lengths produce, with a variety of
+        // bits following it (a wrong bit in one stored code shows only at some offsets and only
+        // where the following bit is not already set)
+        if main_table {
+            const THIRD: [u8; 8] = [0x00, 0x01, 0x20, 0x61, 0x80, 0xf8, 0xfe, 0xff];
+            sweep(&run, (0..65536u32 * 8).into_par_iter().map(|i| vec![(i >> 11) as u8, (i >> 3) as u8, THIRD[(i & 7) as usize]]), |x, lc| check_compress(&run, t, x, lc));
+        }
         // --- decompressor inputs
         let dl = if thorough && main_table { 3 } else { 2 };
         if dl == 3 {
@@ -427,7 +435,7 @@ fn main() {
     run.assume("frequency vectors whose code depth exceeds the 24-bit representation make the table constructor refuse (panic); they are counted as 'table-rejected' and skipped - table construction limits are not part of the statement");
     run.assume("content classes: zeros, 'abc' repeated, byte counter, fixed LCG stream (a named constant member of the alphabet)");
     run.finish(
-        "per code table (built-in, shipped frequency file, 23 synthetic frequency vectors incl. two whose EOF code word is all zeros, so that input ending between two symbols decodes to EOF): all compressor inputs of length <=2, every length 0..4096 x 4 content classes, every byte value repeated 1..64; all decompressor inputs of length <=2 (<=3 thorough) x every output capacity 0..8n+2 between canaries, every prefix / one-byte extension / byte substitution of valid streams; oracle: round trip for both output forms, the convenience wrappers (compress, compress_into, compress_into_vec, decompress, decompress_into, decompress_into_vec) agree with the buffer API, exact predicted lengths, byte identity with the C++ reference, equality with the reference whenever it decodes, capacity errors exactly when the output does not fit, no write past the buffer, termination (watchdog)",
+        "per code table (built-in, shipped frequency file, 23 synthetic frequency vectors incl. two whose EOF code word is all zeros, so that input ending between two symbols decodes to EOF): all compressor inputs of length <=2, for the built-in and shipped tables every pair of symbols followed by one of 8 third symbols, every length 0..4096 x 4 content classes, every byte value repeated 1..64; all decompressor inputs of length <=2 (<=3 thorough) x every output capacity 0..8n+2 between canaries, every prefix / one-byte extension / byte substitution of valid streams; oracle: round trip for both output forms, the convenience wrappers (compress, compress_into, compress_into_vec, decompress, decompress_into, decompress_into_vec) agree with the buffer API, exact predicted lengths, byte identity with the C++ reference, equality with the reference whenever it decodes, capacity errors exactly when the output does not fit, no write past the buffer, termination (watchdog)",
         true,
     );
 }
